@@ -1,3 +1,4 @@
+import G3D.Proofs.HandlersTieFlat
 import G3D.Proofs.KTieKinter
 import G3D.Proofs.KTieKinterr
 import G3D.Props.C01
@@ -11,3 +12,15 @@ import G3D.Props.C01
 #print axioms G3D.KTie.Kinter.interLinePlane_paths
 #print axioms G3D.KTie.Kinter.interPlanePlane_tie
 #print axioms G3D.KTie.Kinter.interPlanePlane_path
+#print axioms G3D.Tie.h_inter_segment_segment_eq
+#print axioms G3D.Tie.h_inter_segment_halfline_eq
+#print axioms G3D.Tie.h_inter_halfline_halfline_eq
+#print axioms G3D.Tie.h_inter_line_segment_eq
+#print axioms G3D.Tie.h_inter_line_halfline_eq
+#print axioms G3D.Tie.h_inter_plane_segment_eq
+#print axioms G3D.Tie.h_inter_plane_halfline_eq
+#print axioms G3D.Tie.h_inter_point_point_eq
+#print axioms G3D.Tie.h_inter_point_line_eq
+#print axioms G3D.Tie.h_inter_point_plane_eq
+#print axioms G3D.Tie.h_inter_point_segment_eq
+#print axioms G3D.Tie.h_inter_point_halfline_eq
